@@ -2,7 +2,7 @@
 From Coq Require Import ZArith List Bool PrimFloat String.
 Import ListNotations.
 Require Import PyBase Solver SolverFacts SolverFacts2 SolverFacts3 SolverFacts4 SolverFacts5 SolverFacts6 SolverF SolverExamples SolverExamples2.
-Require Import SolveAll SolveAllF SolveAllFacts SolveAllExamples.
+Require Import SolveAll SolveAllF SolveAllFacts SolveAllFacts2 SolveAllExamples SolveAllExamples2.
 Require Fsic.Gen.Generated.
 Open Scope Z_scope.
 
@@ -377,6 +377,19 @@ Section C06multi.
                (log s ++ [EvBefore t] ++ pass_events t 1 (S k)))
       (acc ++ [(lab, t, false)]).
   Proof. exact (skip_moves_on num sub absf ltb isfin zero ev before after L d o t lab rest s acc p v1 k). Qed.
+  (* ARBITRARY histories of public solver calls — solve_t, solve_period and solve in any order, each with its own options,
+     labels and period, exceptions caught by the caller: the status / iterations series keep their length and every status is
+     one of the five SolutionStatus values: the one the period started with, '.', 'F', 'S' (only if some call of the history had
+     errors='skip') or 'E' (only if some call had errors='raise') *)
+  Theorem C06_api_history_status_invariant (locate : L -> locres) cs s :
+    let s' := run_api num sub absf ltb isfin zero ev before after L locate cs s in
+    List.length (status s') = List.length (status s) /\ List.length (iters s') = List.length (iters s) /\
+    forall q x, nth_error (status s') q = Some x ->
+      In (st_char x) Generated.status_values /\
+      (nth_error (status s) q = Some x \/ x = Solved \/ x = Failed \/
+       (x = Skipped /\ exists c, In c cs /\ errors (api_opts num L c) = ESkip) \/
+       (x = ErrorSt /\ exists c, In c cs /\ errors (api_opts num L c) = ERaise)).
+  Proof. exact (api_status_invariant num sub absf ltb isfin zero ev before after L locate cs s). Qed.
 End C06multi.
 
 (* the five statuses of the model are the SolutionStatus values of the working tree (regenerated constant) *)
@@ -465,6 +478,7 @@ Print Assumptions C06_solve_t_status_shape.
 Print Assumptions C06_calls_status_invariant.
 Print Assumptions C06_catch_first_no_store.
 Print Assumptions C06_skip_moves_on.
+Print Assumptions C06_api_history_status_invariant.
 Print Assumptions C06_status_alphabet_matches_source.
 Print Assumptions C06_status_always_in_alphabet.
 Print Assumptions C06_catch_first_warning_no_store.
@@ -477,3 +491,4 @@ Print Assumptions ex10_state_machine_instances.
 Print Assumptions ex11_warning_filter.
 Print Assumptions ex12_before_hook_warning.
 Print Assumptions ex13_replace_guard_satisfiable.
+Print Assumptions exH_history_statuses.
